@@ -773,6 +773,57 @@ theorem parameters_do_not_change_totality (cv : CustomValidators) (vt : VTable) 
   obtain ⟨c3, hc3⟩ := h3
   exact ⟨a1 ++ a2 ++ c3, by simp [itemIssues, ha1, ha2, hc3]⟩
 
+/-- **Only membership in the parameter set is observable**: two parameter sets with the same
+    labels (any order, any multiplicity) give literally the same outcome — the same issues in the
+    same order, or the same internal error. -/
+theorem issues_depend_on_parameter_membership (cv : CustomValidators) (vt : VTable) (sch : Schema)
+    (m : Model) (P P' : List String) (hmem : ∀ x, x ∈ P ↔ x ∈ P') :
+    getIssues cv vt sch m (some P) = getIssues cv vt sch m (some P') := by
+  have hc : ∀ x, P.contains x = P'.contains x := by
+    intro x
+    have := hmem x
+    by_cases hx : x ∈ P
+    · simp [hx, this.mp hx]
+    · have hx' : x ∉ P' := fun h => hx (this.mpr h)
+      simp [hx, hx']
+  have ha : attrParamIssues P = attrParamIssues P' := by
+    funext it a
+    unfold attrParamIssues
+    simp only [hc]
+  unfold getIssues
+  congr 1
+  funext it
+  simp only [itemIssues, ha]
+
+/-- **One parameter removed in turn**: removing the label `l` from the parameter set adds nothing
+    but `ParameterIssue`s for `l` itself. -/
+theorem remove_one_parameter (cv : CustomValidators) (vt : VTable) (sch : Schema)
+    (m : Model) (P : List String) (l : String) {r r' : List Issue}
+    (h : getIssues cv vt sch m (some P) = .ok r)
+    (h' : getIssues cv vt sch m (some (P.filter (· ≠ l))) = .ok r') :
+    (∀ i ∈ r, i ∈ r') ∧ (∀ i ∈ r', i ∈ r ∨ i = .missingParam l) := by
+  refine ⟨issues_antitone_in_parameters cv vt sch m _ P (fun x hx => (List.mem_filter.mp hx).1) h' h, ?_⟩
+  intro i hi
+  unfold getIssues at h h'
+  obtain ⟨it, hit, bs', hb', hib'⟩ := (collectM_mem h' i).mp hi
+  obtain ⟨bs, hb⟩ := collectM_each h it hit
+  obtain ⟨a1, a2, a3, ha1, ha2, ha3, rfl⟩ := itemIssues_ok hb
+  obtain ⟨b1, b2, b3, hb1, hb2, hb3, rfl⟩ := itemIssues_ok hb'
+  rw [ha1] at hb1; rw [ha2] at hb2
+  cases hb1; cases hb2
+  simp only at ha3 hb3
+  rcases List.mem_append.mp hib' with h12 | h3
+  · exact Or.inl ((collectM_mem h i).mpr ⟨it, hit, _, hb, List.mem_append.mpr (Or.inl h12)⟩)
+  · obtain ⟨a, ha, cs', hcs', hic'⟩ := (collectM_mem hb3 i).mp h3
+    obtain ⟨cs, hcs⟩ := collectM_each ha3 a ha
+    obtain ⟨ls, x, hk, hls, hx, hn, rfl⟩ := (attrParamIssues_mem hcs' _).mp hic'
+    by_cases hxl : x = l
+    · exact Or.inr (by rw [hxl])
+    · refine Or.inl ((collectM_mem h _).mpr ⟨it, hit, _, hb, List.mem_append.mpr (Or.inr ?_)⟩)
+      refine (collectM_mem ha3 _).mpr ⟨a, ha, cs, hcs, ?_⟩
+      refine (attrParamIssues_mem hcs _).mpr ⟨ls, x, hk, hls, hx, fun hp => hn ?_, rfl⟩
+      exact List.mem_filter.mpr ⟨hp, by simpa using hxl⟩
+
 def exVT : VTable := [
   ("validate_megacomplexes", .resolved "megacomplex" true true stdRules),
   ("validate_lengths", .lengthsEqual ["labels", "rates"]),
